@@ -19,6 +19,7 @@ import math
 import os
 import random
 import shutil
+import time
 from fractions import Fraction
 
 from harness import tlc
@@ -43,8 +44,8 @@ def explore_design(res, tier):
     base = {"Kind": "hg", "PD": 6, "Levels": {1, 2, 3, 4, 6}}
     cfgs = [dict(n=4, occ=3, maxo=4, alphas={1, 4})]
     if tier != "quick":
-        cfgs += [dict(n=4, occ=4, maxo=3, alphas={1, 2, 4}), dict(n=5, occ=3, maxo=5, alphas={1, 2, 4}),
-                 dict(n=4, occ=5, maxo=2, alphas={1, 2, 4})]
+        cfgs += [dict(n=4, occ=4, maxo=3, alphas={1, 2, 4}), dict(n=5, occ=3, maxo=5, alphas={1, 4}),
+                 dict(n=3, occ=5, maxo=2, alphas={1, 2, 4})]
 
     def consts(c):
         k = dict(base)
@@ -360,54 +361,26 @@ def _labels(fam, n):
     return LABEL_FAMILIES[fam](n)
 
 
-def run(tier, seed):
-    res = Result("X05", tier, seed, "model_checking")
-    quick = tier == "quick"
-    rng = random.Random(seed * 32452843 + 5)
-    plan = [(gen_tiny, 110 if quick else 1500), (gen_cores, 130 if quick else 1700)]
-    n_real = 24 if quick else 260          # calls made with the real process pools of get_svc
-    jobs, meta = [], []
-    i = 0
-    for gen, count in plan:
-        for j in range(count):
-            n, edges = gen(rng)
-            unweighted = rng.random() < 0.12
-            if unweighted:
-                edges = {e: 1 for e in edges}
-            used = set(x for e in edges for x in e)
-            isolated = [x for x in range(1, n + 1) if x not in used and rng.random() < 0.7]
-            fam = FAMS[i % len(FAMS)]
-            calls = plan_calls(rng, edges, gen is gen_tiny)
-            real = []
-            for _ in calls:
-                r = n_real > 0 and rng.random() < 0.045
-                n_real -= 1 if r else 0
-                real.append(r)
-            jobs.append({"seed": rng.randrange(1 << 30), "labels": _labels(fam, n), "edges": [[list(e), w] for e, w in sorted(edges.items())],
-                         "weighted": not unweighted, "isolated": isolated, "calls": calls, "real_pool": real})
-            meta.append({"n": n, "family": gen.__name__, "labels_family": fam})
-            i += 1
-    # the worker processes are forked before any thread of this process exists
-    ex = cf.ProcessPoolExecutor(max_workers=4 if quick else 8)
-    futs = [ex.submit(_work, jb) for jb in jobs]
-    pool = cf.ThreadPoolExecutor(max_workers=1)
-    design = pool.submit(explore_design, res, tier)
+def collect(jobs, meta, results):
     cases, descr, raws = [], [], []
-    for jb, m, fu in zip(jobs, meta, futs):
-        for c, raw, err, real in fu.result():
+    for jb, m, outs in zip(jobs, meta, results):
+        for k, (c, raw, err, real) in enumerate(outs):
             c["id"] = len(cases)
             cases.append(c)
             raws.append(raw)
             d = {"n": m["n"], "hyperedges": jb["edges"], "weighted": jb["weighted"], "isolated": jb["isolated"],
                  "labels": jb["labels"], "build_seed": jb["seed"], "family": m["family"], "call": c["kind"], "error": err}
             if c["kind"] == "svc":
-                d.update({"min_order": c["mn"], "max_order": c["mx"] or None, "alpha": "1/%d" % c["ia"], "real_pool": real})
+                d.update({"min_order": c["mn"], "max_order": c["mx"] or None, "alpha": "1/%d" % c["ia"], "real_pool": real,
+                          "call_args": list(jb["calls"][k - 1])})
             descr.append(d)
-    ex.shutdown()
-    rj, par, states = validate(cases, procs=4 if quick else 8)
-    design.result()
-    pool.shutdown()
+    return cases, descr, raws
 
+
+def judge(cases, descr, raws, procs):
+    """TLC on every case, then the Fractions path for the orders outside the exact regime.
+    Returns ({case index: failed clauses}, coverage counters, validator states)"""
+    rj, par, states = validate(cases, procs=procs)
     rejected = {}
     for idx, failed in rj:
         if "svc_harness_regime_agrees" in failed:
@@ -450,6 +423,16 @@ def run(tier, seed):
         got = sum(len(s["rows"]) for s in c["orders"])
         n_dropped_calls += 1 if got < len(cand) else 0
         n_low_validated += 1 if any(r["fdr"] for s in c["orders"][1:] for r in s["rows"]) else 0
+    stats = dict(svc_calls_non_default_alpha=n_alpha_calls,
+                 svc_order_tables_exact_in_tlc=n_exact, svc_rows_exact_in_tlc=n_exact_rows,
+                 svc_order_tables_tail_over_fractions=n_large, svc_rows_tail_over_fractions=n_large_rows,
+                 svc_validated_rows=validated_rows, svc_tables_with_validated_and_not=both,
+                 svc_tables_where_step_up_matters=stepup, svc_threshold_ties_skipped=skipped,
+                 svc_calls_with_dropped_subgroups=n_dropped_calls, svc_calls_validating_below_the_largest_order=n_low_validated)
+    return rejected, stats, states
+
+
+def report(res, cases, descr, raws, rejected):
     for idx in sorted(rejected):
         d = descr[idx]
         cl = rejected[idx]
@@ -465,17 +448,79 @@ def run(tier, seed):
                        % (what, ",".join(g), d["hyperedges"], d["isolated"], d["labels"],
                           (" [" + d["error"] + "]") if d["error"] else ""),
                        {"case": d, "logged": cases[idx]["orders"] or cases[idx]["bip"], "returned": raws[idx]})
+
+
+def replay(path):
+    """re-build the input of a replay file, make the call again and validate it again"""
+    with open(path) as f:
+        rp = json.load(f)
+    d = rp["payload"]["case"]
+    job = {"seed": d["build_seed"], "labels": d["labels"], "edges": d["hyperedges"], "weighted": d["weighted"],
+           "isolated": d["isolated"], "calls": [tuple(d["call_args"])] if d["call"] == "svc" else [],
+           "real_pool": [bool(d.get("real_pool"))] if d["call"] == "svc" else []}
+    with cf.ProcessPoolExecutor(max_workers=1) as ex:
+        outs = ex.submit(_work, job).result()
+    cases, descr, raws = collect([job], [{"n": d["n"], "family": d["family"]}], [outs])
+    keep = [k for k, c in enumerate(cases) if c["kind"] == d["call"]]
+    cases, descr, raws = [cases[k] for k in keep], [descr[k] for k in keep], [raws[k] for k in keep]
+    for k, c in enumerate(cases):
+        c["id"] = k
+    rejected, _, _ = judge(cases, descr, raws, procs=1)
+    res = Result("X05", "replay", rp.get("seed", 0), "model_checking")
+    report(res, cases, descr, raws, rejected)
+    for r in res.rejections:
+        print("VIOLATION property=X05 replay=%s\n  what: %s" % (path, r["what"]))
+    print("  returned: %s" % json.dumps(raws[0]))
+    print("X05 replay %s" % ("FAIL" if res.rejections else "PASS"))
+    return 1 if res.rejections else 0
+
+
+def run(tier, seed):
+    res = Result("X05", tier, seed, "model_checking")
+    quick = tier == "quick"
+    rng = random.Random(seed * 32452843 + 5)
+    plan = [(gen_tiny, 110 if quick else 1500), (gen_cores, 130 if quick else 1700)]
+    n_real = 24 if quick else 120          # calls made with the real process pools of get_svc
+    jobs, meta = [], []
+    i = 0
+    for gen, count in plan:
+        for j in range(count):
+            n, edges = gen(rng)
+            unweighted = rng.random() < 0.12
+            if unweighted:
+                edges = {e: 1 for e in edges}
+            used = set(x for e in edges for x in e)
+            isolated = [x for x in range(1, n + 1) if x not in used and rng.random() < 0.7]
+            fam = FAMS[i % len(FAMS)]
+            calls = plan_calls(rng, edges, gen is gen_tiny)
+            real = []
+            for _ in calls:
+                r = n_real > 0 and rng.random() < 0.045
+                n_real -= 1 if r else 0
+                real.append(r)
+            jobs.append({"seed": rng.randrange(1 << 30), "labels": _labels(fam, n), "edges": [[list(e), w] for e, w in sorted(edges.items())],
+                         "weighted": not unweighted, "isolated": isolated, "calls": calls, "real_pool": real})
+            meta.append({"n": n, "family": gen.__name__, "labels_family": fam})
+            i += 1
+    # the worker processes are forked before any thread of this process exists
+    ex = cf.ProcessPoolExecutor(max_workers=4 if quick else 8)
+    futs = [ex.submit(_work, jb) for jb in jobs]
+    pool = cf.ThreadPoolExecutor(max_workers=1)
+    design = pool.submit(explore_design, res, tier)
+    t0 = time.time()
+    cases, descr, raws = collect(jobs, meta, [fu.result() for fu in futs])
+    ex.shutdown()
+    t1 = time.time()
+    rejected, stats, states = judge(cases, descr, raws, procs=4 if quick else 8)
+    t2 = time.time()
+    design.result()
+    pool.shutdown()
+    report(res, cases, descr, raws, rejected)
     svc = [k for k, c in enumerate(cases) if c["kind"] == "svc"]
     res.cov(traces_validated_against_impl=len(cases), validator_states=states,
             hypergraphs=len(jobs), bipartite_tables=len(cases) - len(svc), svc_calls=len(svc),
             svc_calls_real_process_pool=sum(1 for k in svc if descr[k]["real_pool"]),
-            svc_calls_non_default_alpha=n_alpha_calls,
-            svc_order_tables_exact_in_tlc=n_exact, svc_rows_exact_in_tlc=n_exact_rows,
-            svc_order_tables_tail_over_fractions=n_large, svc_rows_tail_over_fractions=n_large_rows,
-            svc_validated_rows=validated_rows, svc_tables_with_validated_and_not=both,
-            svc_tables_where_step_up_matters=stepup, svc_threshold_ties_skipped=skipped,
-            svc_calls_with_dropped_subgroups=n_dropped_calls, svc_calls_validating_below_the_largest_order=n_low_validated,
-            label_families=list(FAMS))
+            label_families=list(FAMS), **stats, wall_calls_s=round(t1 - t0, 1), wall_validation_s=round(t2 - t1, 1))
     pick = min(svc, key=lambda k: (not (any(r["fdr"] for s in cases[k]["orders"] for r in s["rows"])
                                         and any(not r["fdr"] for s in cases[k]["orders"] for r in s["rows"])),
                                    len(descr[k]["hyperedges"]), -k))
@@ -491,6 +536,9 @@ def run(tier, seed):
                "na) and the binomial tail / step-up threshold of the statement are evaluated over Python Fractions from those parameters "
                "(relative tolerance 1e-9), as checks/c19_svh.py does; validated flags are not judged when an exact p-value lies within "
                "1e-7 (relative) of a level i x bonf",
+               "calls with an alpha other than the default are judged against the docstring (alpha is the significance level of the "
+               "correction: bonf = alpha / C(na, n)); a table whose flags follow alpha = 0.01 instead is reported under the separate clause "
+               "svc_alpha_is_the_significance_level",
                "the groups tested at an order are judged given the groups the returned table itself flags as validated at larger orders, "
                "and the flags given the groups the table lists (each link of the procedure is decided separately)")
     return res.finish()
